@@ -90,7 +90,7 @@ def main():
     forb = C.grep_forbidden(C.lean_closure(modules + ['Driver']))
     audited, failed = {}, {}
     if ok_props:
-        rc, audited, aout = C.audit_namespace([f'Mwp.Props.{prop}'], modules)
+        rc, audited, aout = C.audit_namespace([m for m in modules if m.startswith('Mwp.Props.')] or [f'Mwp.Props.{prop}'], modules)
         if rc != 0 and not audited:
             ctx.notes.append('audit failed: ' + aout[-500:])
     else:
